@@ -32,7 +32,8 @@ pub enum HostileOp {
     /// 4 honest-looking but arbitrary kind/tags/created_at, 5 own rumor dated (far) in the future
     ForgedRumor { g: usize, mode: u8, victim: usize, victim_msg: Option<EvRef>, tag: u32 },
     /// re-wrap the MLS ciphertext of a published event in a fresh wrapper. mode: 0 same group,
-    /// 1 other group's h tag (g2), 2 future timestamp inside skew, 3 duplicate-content new key
+    /// 1 other group's h tag (g2), 2 future timestamp inside skew, 3 duplicate-content new key,
+    /// 4 dated a few seconds before the original
     Rewrap { ev: EvRef, mode: u8, g2: usize },
     /// commit built directly with openmls. kind: 0 remove(victim) 1 add(outsider) 2 group data
     /// (nostr id byte flip) 3 pure self-update 4 self-update with changed identity (victim's)
@@ -398,7 +399,9 @@ pub fn exec(w: &mut World, step: &Step, h: HostileOp) -> Outcome {
             let r: Result<Event, String> = with_mdk!(w.nodes[node].mdk(), m => (|| {
                 let bytes = unwrap_mls(m, &gid, &pe.event).ok_or("cannot open the captured wrapper")?;
                 let h = if mode == 1 { other } else { None };
-                let ts = if mode == 2 { Some(node_now + 120) } else { None };
+                // mode 4: dated before the original (a copy of an applied commit then looks like a
+                // better candidate of its epoch under MIP-03)
+                let ts = if mode == 2 { Some(node_now + 120) } else if mode == 4 { Some(pe.event.created_at.as_secs().saturating_sub(3)) } else { None };
                 wrap(m, &gid, &bytes, h, ts, None)
             })());
             match r {
